@@ -198,11 +198,12 @@ def interfere(cfg):
 
 
 class World:
-    def __init__(self, cfg, n_sketches=2, tmp_root=None):
+    def __init__(self, cfg, n_sketches=2, tmp_root=None, shm=False):
         self.cfg = dict(cfg)
         self.kind = cfg["kind"]
         self.n = n_sketches
-        self.sk = [sut(make_sketch, cfg) for _ in range(n_sketches)]
+        self.shm = bool(shm)  # sketches created with shared_memory=True behave like ordinary ones (same properties)
+        self.sk = [sut(make_sketch, cfg, self.shm) for _ in range(n_sketches)]
         self.true = [Counter() for _ in range(n_sketches)]  # true multiplicity per (model) key
         self.total = [0 for _ in range(n_sketches)]  # total multiplicity that reached the sketch
         self.seen = [set() for _ in range(n_sketches)]  # distinct model keys ever passed in (any multiplicity)
